@@ -705,3 +705,77 @@ func genSubRevHistory(r *rand.Rand, maxLen int) History {
 	}
 	return buildOps(r, items, maxLen, origin)
 }
+
+// genNsHistory builds a history about namespaces: a generated set is processed (or walked, or
+// read), then arrive, each after such an operation: a differently named module that claims a
+// namespace already in use; a newer revision of a module whose namespace changed (to a fresh one
+// or to another module's); a module that takes over the namespace the revision gave up.
+func genNsHistory(r *rand.Rand, maxLen int) History {
+	cfg := gen.Default()
+	cfg.MaxModules = 2
+	cfg.Submodules = maxLen >= 12 && r.Intn(2) == 0
+	cfg.BadRate = 0.05
+	set := gen.Generate(r, cfg)
+	var items []item
+	var mods []*gen.Module
+	for _, m := range set.Mods {
+		items = append(items, item{name: m.FileName(), text: m.Text(), mod: m})
+		if !m.Sub {
+			mods = append(mods, m)
+		}
+	}
+	if r.Intn(3) == 0 {
+		r.Shuffle(len(items), func(i, j int) { items[i], items[j] = items[j], items[i] })
+	}
+	pre := func() string { return []string{"process", "process", "process", "walk", "read"}[r.Intn(5)] }
+	small := func(name, ns string) *gen.Module {
+		return &gen.Module{Name: name, Prefix: name, Namespace: ns, ImportPrefix: map[*gen.Module]string{},
+			Body: nd("module", name, nd("container", name+"c", nd("leaf", name+"l", nd("type", "string"))))}
+	}
+	base := mods[r.Intn(len(mods))]
+	origin := "namespaces"
+	var late []item
+	kind := r.Intn(4)
+	if kind == 0 || kind == 3 {
+		// a second module, another name, the same namespace
+		c := small("n1", base.Namespace)
+		if r.Intn(3) == 0 {
+			c.Imports = append(c.Imports, base)
+			c.ImportPrefix[base] = base.Prefix
+		}
+		late = append(late, item{name: "n1.yang", text: c.Text(), mod: c, pre: pre()})
+		origin += "+second-module-same-namespace"
+	}
+	if kind == 1 || kind == 2 || kind == 3 {
+		// a newer revision whose namespace changed
+		v := *base
+		v.Revisions = append(append([]string{}, base.Revisions...), "2021-06-01")
+		v.Namespace = base.Namespace + ":v2"
+		if len(mods) > 1 && r.Intn(3) == 0 {
+			for _, o := range mods {
+				if o != base {
+					v.Namespace = o.Namespace // now shared with another module of the set
+				}
+			}
+		}
+		late = append(late, item{name: base.Name + "@2021-06-01.yang", text: v.Text(), mod: &v, variant: true, pre: pre()})
+		origin += "+revision-changes-namespace"
+		if kind == 2 || (kind == 3 && r.Intn(2) == 0) {
+			// ... and a module that takes the old namespace over
+			t := small("n2", base.Namespace)
+			late = append(late, item{name: "n2.yang", text: t.Text(), mod: t, pre: pre()})
+			origin += "+namespace-taken-over"
+		}
+	}
+	if r.Intn(4) == 0 {
+		r.Shuffle(len(late), func(i, j int) { late[i], late[j] = late[j], late[i] })
+	}
+	for len(items)+2*len(late)+1 > maxLen && len(items) > 1 {
+		items = items[:len(items)-1]
+		origin += "+truncated"
+	}
+	for len(items)+2*len(late)+1 > maxLen && len(late) > 1 {
+		late = late[:len(late)-1]
+	}
+	return buildOps(r, append(items, late...), maxLen, origin)
+}
